@@ -110,7 +110,8 @@ pub struct AgentLogCase {
     /// 1 key file = key followed by the certificate; 2 certificate file = certificate followed by
     /// the key (a bundle; the key file is given as well); 3 key file with its line breaks turned
     /// into spaces; 4 key file with CR line ends; 5 key file without its END line; 6 key file
-    /// with a line of text before the PEM block; 7 key file = certificate followed by the key
+    /// with a line of text before the PEM block; 7 key file = certificate followed by the key;
+    /// 8 key file with a preamble that is not UTF-8 (Latin-1 friendly name, as PKCS#12 exports have)
     #[serde(default)]
     pub layout: u8,
 }
@@ -142,11 +143,19 @@ fn layout_files(crt: &str, keyfile: &str, layout: u8) -> Option<(String, String,
             key.lines().filter(|l| !l.starts_with("-----END")).map(|l| format!("{l}\n")).collect(),
         ),
         6 => (cert.clone(), format!("Bag Attributes: client key\n{key}")),
-        _ => (cert.clone(), format!("{cert}{key}")),
+        7 => (cert.clone(), format!("{cert}{key}")),
+        // 8: as `openssl pkcs12 -nodes` writes it, with a Latin-1 (not UTF-8) friendly name
+        _ => (cert.clone(), key.clone()),
     };
     let (c, k) = (dir.join("client.crt"), dir.join("client.key"));
     std::fs::write(&c, new_cert).ok()?;
-    std::fs::write(&k, new_key).ok()?;
+    if layout >= 8 {
+        let mut bytes = b"Bag Attributes\n    friendlyName: Jos\xe9 router key\nKey Attributes: <No Attributes>\n".to_vec();
+        bytes.extend_from_slice(new_key.as_bytes());
+        std::fs::write(&k, bytes).ok()?;
+    } else {
+        std::fs::write(&k, new_key).ok()?;
+    }
     Some((c.display().to_string(), k.display().to_string(), Some(dir)))
 }
 
@@ -214,7 +223,7 @@ impl Prop for C20Agent {
             prop_oneof![1 => Just(0u8), 1 => Just(1u8), 2 => Just(2u8), 2 => Just(3u8), 3 => Just(4u8)],
             prop::option::weighted(0.4, 0u8..RUST_LOG.len() as u8),
             prop_oneof![4 => Just(0u8), 1 => Just(1u8), 1 => Just(2u8), 1 => Just(3u8)],
-            prop_oneof![3 => Just(0u8), 4 => 1u8..8],
+            prop_oneof![3 => Just(0u8), 5 => 1u8..9],
         )
             .prop_map(|(key, verbosity, rust_log, outcome, layout)| AgentLogCase {
                 key,
@@ -319,6 +328,26 @@ impl Prop for C20Agent {
                     ),
                 );
                 return obs;
+            }
+        }
+        // the text of the file as a list of byte values (an error value that embeds its input)
+        for line in pem.lines().filter(|l| !l.starts_with("-----") && l.len() >= 16) {
+            let b = &line.as_bytes()[..16];
+            let dec: Vec<String> = b.iter().map(|x| x.to_string()).collect();
+            let hex: Vec<String> = b.iter().map(|x| format!("{x:02x}")).collect();
+            for (kind, n) in [
+                ("decimal-list", dec.join(", ")),
+                ("decimal-list", dec.join(",")),
+                ("hex-list", hex.join(", ")),
+                ("hex-list", hex.join(" ")),
+            ] {
+                if text.to_lowercase().contains(&n) {
+                    obs.fail(
+                        format!("private-key-in-log:pem-text-as-{kind}:key-file-layout-{}", case.layout),
+                        format!("the agent's output contains the text of {keyfile} as a list of byte values (key file layout {})", case.layout),
+                    );
+                    return obs;
+                }
             }
         }
         let der = net::read_key(&net::pki_dir().join(keyfile))
